@@ -29,7 +29,7 @@ N2 == NatC("2")
 
 Unary(S) ==
     {TArr(t, N2) : t \in S} \cup {TFArr(t, N2) : t \in S} \cup {TOpt(t) : t \in S}
-    \cup {TSt(g, <<ArgT(t)>>) : g \in {"G1", "GQ", "GA", "GP", "GC", "GF"}, t \in S}
+    \cup {TSt(g, <<ArgT(t)>>) : g \in {"G1", "GQ", "GA", "GP", "GC", "GD", "GF"}, t \in S}
     \cup {TSt("GN", <<ArgT(t), ArgC(N2)>>) : t \in S}
 Seqs(S, lo, hi) == UNION {[1..k -> S] : k \in lo..hi}
 Tuples(S, lo, hi) == {TTup(s) : s \in Seqs(S, lo, hi)}
